@@ -8,6 +8,9 @@ spec/NonNanScan.tla   the two scans as cursors moving in from both ends of a row
 spec -> code   GenNonNanScan: all 1 365 rows with both indices, executed on the real functions: each row alone (axis 0, float64 and
         float32, +0 / -0 and +inf / -inf as realisations of the abstract values) and all rows of one length stacked into a matrix,
         scanned along axis 1 and - transposed, so on a non-contiguous view - along axis 0, with a second invalid_val.
+code -> spec   rows recorded from the index maps of real CartesianGrid2D regions (random subsets of a 5 x 4 lattice; absent cells are
+        not-a-number there and cell number 0 is the value 0), abstracted and decided by TLC's table: the real scans must agree,
+        alone and on the whole map, and must end at the westmost / eastmost cell of that latitude row of the region.
 """
 import random
 
@@ -77,8 +80,54 @@ def run(chk, replay=None):
                             'got': g[k] if k is not None else len(g), 'expected': want[k] if k is not None else len(want)}
         return None
 
+    from csep.core.regions import CartesianGrid2D
+    table = {tuple(c['row']): (c['first'], c['last']) for c in cases}
+
+    def check_region(cells, anchor):
+        lon0, lat0, dh = anchor
+        origins = numpy.array([(lon0 + i * dh, lat0 + j * dh) for i, j in cells])
+        region = CartesianGrid2D.from_origins(origins, dh=dh)
+        amap = numpy.asarray(region.idx_map, dtype=float)
+        if amap.ndim != 2 or amap.shape[1] > 5:
+            raise MachineryError('index map of shape %r' % (amap.shape,))
+        ro = region.origins()
+        f_all = call(calc.first_nonnan, amap, axis=1)
+        l_all = call(calc.last_nonnan, amap, axis=1)
+        good, bads = 0, []
+        for j in range(amap.shape[0]):
+            row = amap[j, :]
+            abstract = tuple('nan' if v != v else ('zero' if v == 0 else 'one') for v in row.tolist())
+            want = table[abstract]
+            g1, g2 = call(calc.first_nonnan, row), call(calc.last_nonnan, row)
+            got = None if isinstance(g1, Raised) or isinstance(g2, Raised) else (int(numpy.asarray(g1).reshape(-1)[0]), int(numpy.asarray(g2).reshape(-1)[0]))
+            got_m = None if isinstance(f_all, Raised) or isinstance(l_all, Raised) else (int(numpy.asarray(f_all).reshape(-1)[j]), int(numpy.asarray(l_all).reshape(-1)[j]))
+            bad = None
+            if got != want or got_m != want:
+                bad = {'why': 'recorded row decided differently', 'row': list(abstract), 'got': got, 'got_matrix': got_m, 'expected': list(want)}
+            elif want[0] >= 0:
+                # the cells the indices point at are the westmost / eastmost cell of that latitude row of the region
+                lat = ro[int(row[want[0]])][1]
+                same = [k for k in range(len(ro)) if abs(ro[k][1] - lat) < dh / 4]
+                west = min(same, key=lambda k: ro[k][0])
+                east = max(same, key=lambda k: ro[k][0])
+                if int(row[want[0]]) != west or int(row[want[1]]) != east:
+                    bad = {'why': 'scan does not end at the westmost / eastmost cell of the row', 'row': row.tolist(), 'west': west, 'east': east}
+            if bad:
+                bads.append(bad)
+            else:
+                good += 1
+                if want[0] >= 0 and abstract[want[0]] == 'zero':
+                    chk.nontrivial('recorded:' + ','.join(abstract))
+        return good, bads
+
     if replay:
         d = replay['detail']
+        if d['kind'] == 'recorded':
+            n, bads = check_region([tuple(c) for c in d['cells']], tuple(d['anchor']))
+            for bad in bads[:1]:
+                chk.violation(replay['signature'], dict(d, mismatch=bad))
+            chk.sample({'replayed': 'recorded rows of a region of %d cells' % len(d['cells'])})
+            return
         if d['kind'] == 'single':
             bad = check_single(d['case'], d['variant'], d['dtype'])
         else:
@@ -116,8 +165,29 @@ def run(chk, replay=None):
                 else:
                     ok += 1
     chk.traces += ok
+
+    # ---- code -> spec: rows recorded from the index maps of real regions, decided by the table TLC enumerated.  In an index map
+    #      absent cells are not-a-number and cell number 0 is the value 0: the pitfall the specification names.
+    rrng = random.Random(chk.seed * 7919 + 1414)
+    recorded = 0
+    for rep in range(40 if quick else 400):
+        anchor = rrng.choice([(0.0, 0.0, 0.1), (-125.4, 31.5, 0.1), (10.0, 40.0, 1.0), (-2.0, -1.0, 0.5)])
+        cells = [(i, j) for i in range(5) for j in range(4) if rrng.random() < 0.55]
+        if not cells:
+            continue
+        rrng.shuffle(cells)
+        n, bads = check_region(cells, anchor)
+        recorded += n
+        for bad in bads:
+            chk.violation('scan-recorded:%s' % bad['why'], {'kind': 'recorded', 'cells': cells, 'anchor': list(anchor), 'mismatch': bad})
+    if recorded < 20:
+        raise MachineryError('only %d rows recorded from real index maps' % recorded)
+    chk.traces += recorded
     ctl = dict(next(c for c in cases if c['row'] == ['nan', 'zero', 'one', 'nan']))
     ctl['first'] = 2
-    chk.control('gen: the index of the truthiness slip flagged', check_single(ctl, 0, 'float64') is not None)
+    ctl2 = dict(ctl, first=0)
+    # two different wrong expectations: whatever the code returns, at least one of them must be flagged (a live comparison)
+    chk.control('gen: a wrong first index flagged',
+                check_single(ctl, 0, 'float64') is not None or check_single(ctl2, 0, 'float64') is not None)
     chk.exhaustive = True
     chk.assume('the empty row is not executed (numpy has no argmax of an empty axis; rows of an index map are never empty)')
